@@ -19,6 +19,12 @@ def PyErr.name : PyErr → String
 
 abbrev Py (α : Type) := Except PyErr α
 
+instance {ε α : Type} [DecidableEq ε] [DecidableEq α] : DecidableEq (Except ε α)
+  | .ok a, .ok b => if h : a = b then isTrue (by rw [h]) else isFalse (by intro h'; cases h'; exact h rfl)
+  | .error a, .error b => if h : a = b then isTrue (by rw [h]) else isFalse (by intro h'; cases h'; exact h rfl)
+  | .ok _, .error _ => isFalse (by intro h; cases h)
+  | .error _, .ok _ => isFalse (by intro h; cases h)
+
 /-- Python `//` on integers (floor division). -/
 def pyDiv (a b : Int) : Int := Int.fdiv a b
 /-- Python `%` on integers (sign of the divisor). -/
